@@ -501,6 +501,10 @@ func (conn *Conn) send(ctx context.Context) {
 		case <-ctx.Done():
 			// control channel closed, bail out
 			conn.wg.Done()
+			// Make sure the connection is torn down even if runLoop is
+			// stuck in a handler that blocks sending to conn.out, which
+			// nobody reads any more: Close drains it.
+			conn.closeSock(sock)
 			return
 		}
 	}
